@@ -27,7 +27,7 @@ ROOTS = [
     "variable_versions::v9::V9::to_be_bytes",
     "variable_versions::ipfix::IPFix::to_be_bytes",
     "variable_versions::data_number::FieldValue::to_be_bytes",
-    "<NetflowPacket as serde::Serialize>::serialize",
+    "@serde::ser::Serialize|NetflowPacket|serialize",
 ]
 
 # configuration name -> (cargo args, extra rustflags)
